@@ -124,4 +124,18 @@ Proof.
   change (r_pre_vote r1) with (r_pre_vote r). destruct (r_pre_vote r); reflexivity.
 Qed.
 
+(* a node that cannot campaign (a learner, a node outside the configuration, a node with a snapshot
+   pending) never restarts its election timer by itself: every tick only advances it, so the
+   CheckQuorum lease of a leader it no longer hears from runs out *)
+Theorem nonpromotable_timer_counts r r' :
+  r_state r <> StateLeader -> promotable r = false ->
+  tick st r = Ok r' -> r' = set_r_election_elapsed r (r_election_elapsed r + 1).
+Proof.
+  intros NL NP H. unfold tick in H.
+  assert (TE : tick_election st r = Ok r') by (destruct (r_state r); try exact H; congruence).
+  unfold tick_election in TE.
+  change (promotable (set_r_election_elapsed r (r_election_elapsed r + 1))) with (promotable r) in TE.
+  rewrite NP in TE. cbn [andb] in TE. inversion TE. reflexivity.
+Qed.
+
 End Election.
